@@ -28,6 +28,10 @@ var counter int
 
 var base int = %d
 
+var zeroed int = 0
+
+var zs = 0
+
 func (t *T) val(a int) int {
 	return t.v*%d + a
 }
@@ -38,7 +42,7 @@ func compute(a int) int {
 
 func Step(a int) int {
 	counter++
-	return compute(a) + base + counter
+	return compute(a) + base + counter + zeroed*3 + zs*7
 }
 
 func NewT(v int) *T {
@@ -55,6 +59,8 @@ func CallVal(t *T, a int) int {
 
 func Bump() {
 	base += 1000
+	zeroed += 5
+	zs += 2
 }
 
 type Shape interface {
@@ -157,6 +163,7 @@ func verifC17() {
 		return
 	}
 	var counter, base int32 = 0, verifC17Versions[cur].b
+	var zeroed, zs int32 // declared with the initialiser 0: re-initialised by every load
 	var fv, bm, inst Value
 	haveFv, haveBm, haveInst := false, false, false
 	var instV, bmV int32
@@ -189,11 +196,12 @@ func verifC17() {
 			}
 			cur = k
 			base = verifC17Versions[k].b // re-initialised; counter keeps its value
+			zeroed, zs = 0, 0
 		case 1:
 			v := verifC17Versions[cur]
 			counter++
 			rets, err := vm.Call("main.Step", 1, Int32(a))
-			call1(rets, err, a*v.m+v.a+base+counter, "C17/entry-point-runs-current-code-and-state")
+			call1(rets, err, a*v.m+v.a+base+counter+zeroed*3+zs*7, "C17/entry-point-runs-current-code-and-state")
 		case 2:
 			fv, haveFv = vm.Get("main.compute"), true
 		case 3:
@@ -235,6 +243,8 @@ func verifC17() {
 			_, err := vm.Call("main.Bump", 0)
 			verifAssert(err == nil, "C17/bump")
 			base += 1000
+			zeroed += 5
+			zs += 2
 		}
 	}
 	recall("C17/final/uninitialised-variables-of-every-type-keep-their-values")
@@ -275,7 +285,7 @@ func verifC17() {
 	counter++
 	a := verifInt32("final")
 	rets, err := vm.Call("main.Step", 1, Int32(a))
-	call1(rets, err, a*v.m+v.a+base+counter, "C17/final-step")
+	call1(rets, err, a*v.m+v.a+base+counter+zeroed*3+zs*7, "C17/final-step")
 }
 
 func init() { verifHarnesses["verifC17"] = verifC17 }
